@@ -370,6 +370,102 @@ fn with_spaces(text: &[u8]) -> Vec<Vec<u8>> {
     out
 }
 
+/// "the same holds with the whitespace the schema's whitespace options permit": for each x-guidance whitespace
+/// option documented in docs/json_schema.md, every canonical instance with every permitted whitespace string at
+/// every single legal position, and at all positions at once, must be accepted.
+fn whitespace_options_pass(ctx: &Ctx) {
+    let b256 = vocab::b256();
+    let schemas: Vec<(Value, Vec<Value>)> = vec![
+        (json!({"type": "object", "properties": {"a": {"type": "integer"}, "b": {"type": "array", "items": {"type": "boolean"}, "maxItems": 2}}, "required": ["a", "b"], "additionalProperties": false}),
+            vec![json!({"a": 1, "b": []}), json!({"a": -5, "b": [true, false]})]),
+        (json!({"type": "array", "items": {"type": "object", "properties": {"k": {"type": "string", "maxLength": 1}}, "required": ["k"], "additionalProperties": false}, "maxItems": 2}),
+            vec![json!([]), json!([{"k": "x"}, {"k": ""}])]),
+        (json!({"type": "object", "additionalProperties": {"type": "null"}, "maxProperties": 2}), vec![json!({}), json!({"p": null, "q": null})]),
+    ];
+    // (x-guidance, permitted whitespace strings, positions: 0 = JSON positions (after { [ , : / before } ]), 1 = around , and :)
+    let options: Vec<(Value, Vec<&str>, u8)> = vec![
+        (json!({"whitespace_flexible": true}), vec![" ", "\n", " \t\r\n"], 0),
+        (json!({"whitespace_pattern": "[ ]{0,2}"}), vec![" ", "  "], 0),
+        (json!({"whitespace_pattern": "[\\x20\\x0A]{1,3}"}), vec![" ", "\n ", " \n "], 0),
+        (json!({"item_separator": "\\s{0,2},\\s{0,2}", "key_separator": "\\s{0,2}:\\s{0,2}", "whitespace_flexible": false}), vec![" ", "  "], 1),
+    ];
+    for (schema, insts) in schemas.iter() {
+        for (opt, wss, posmode) in options.iter() {
+            let mut sc = schema.clone();
+            sc["x-guidance"] = opt.clone();
+            let f = Factory::new(&b256, &Slices::Default).unwrap();
+            let root = match f.try_matcher(&GrammarSpec::Json(sc.clone())) {
+                Ok(r) => r,
+                Err(e) => {
+                    ctx.violation(Violation { check: "whitespace_option_refused".into(), class: "json-supported-schema-refused".into(), signature: format!("wsopt-refused|{}", sc), detail: json!({"kind": "json_instance", "schema": sc, "error": e}) });
+                    continue;
+                }
+            };
+            for inst in insts.iter() {
+                let text = serde_json::to_string(inst).unwrap().into_bytes();
+                // legal positions
+                let mut pos = vec![];
+                let (mut in_str, mut esc) = (false, false);
+                for (i, b) in text.iter().enumerate() {
+                    if in_str {
+                        if esc {
+                            esc = false;
+                        } else if *b == b'\\' {
+                            esc = true;
+                        } else if *b == b'"' {
+                            in_str = false;
+                        }
+                        continue;
+                    }
+                    match (b, posmode) {
+                        (b'"', _) => in_str = true,
+                        (b'{' | b'[', 0) => pos.push(i + 1),
+                        (b',' | b':', 0) => pos.push(i + 1),
+                        (b'}' | b']', 0) => pos.push(i),
+                        (b',' | b':', 1) => {
+                            pos.push(i);
+                            pos.push(i + 1);
+                        }
+                        _ => {}
+                    }
+                }
+                pos.sort();
+                pos.dedup();
+                let mut variants: Vec<Vec<u8>> = vec![text.clone()];
+                for ws in wss.iter() {
+                    for p in pos.iter() {
+                        let mut t = text.clone();
+                        t.splice(*p..*p, ws.bytes());
+                        variants.push(t);
+                    }
+                    // all positions at once (from the back so that offsets stay valid); `{}` / `[]` have one position
+                    // listed once thanks to dedup
+                    let mut t = text.clone();
+                    for p in pos.iter().rev() {
+                        t.splice(*p..*p, ws.bytes());
+                    }
+                    variants.push(t);
+                }
+                for v in variants {
+                    let toks: Vec<u32> = v.iter().map(|b| f.env.tok_trie().token_id(&[*b]).unwrap_or(0)).collect();
+                    ctx.validated.fetch_add(1, Ordering::Relaxed);
+                    ctx.transitions.fetch_add(toks.len() as u64, Ordering::Relaxed);
+                    ctx.count("whitespace_option_variants", 1);
+                    if let Err((at, reason)) = feed(&root, &toks) {
+                        ctx.violation(Violation {
+                            check: "whitespace_option".into(),
+                            class: "json-permitted-whitespace-refused".into(),
+                            signature: format!("wsopt|{}|{}", sc, show(&v)),
+                            detail: json!({"kind": "json_instance", "schema": sc, "instance": inst, "text": show(&v), "failed_at_byte": at, "reason": reason}),
+                        });
+                        break;
+                    }
+                }
+            }
+        }
+    }
+}
+
 fn c07_schemas(ctx: &Ctx) -> Vec<Value> {
     let mut v = vec![];
     for s in jsongen::numeric_schemas(ctx.quick()) {
@@ -412,6 +508,7 @@ fn c07_schemas(ctx: &Ctx) -> Vec<Value> {
 }
 
 pub fn run(ctx: &Ctx) -> Coverage {
+    whitespace_options_pass(ctx);
     let ss = c07_schemas(ctx);
     ctx.note(format!("{} schemas", ss.len()));
     let b256 = vocab::b256();
@@ -538,7 +635,7 @@ pub fn run(ctx: &Ctx) -> Coverage {
         ctx.machinery_error("vacuous run: too few instances or no segmentation fed");
     }
     Coverage::StateGraph {
-        rule: format!("{} schemas of the fully supported subset; for each, instances from a schema-guided finite universe (integers around every bound, x.5/x.25 decimals, 19 strings incl. escapes, 2- and 4-byte characters and control characters, arrays to length 3, objects over every subset of optional declared properties plus up to two additional keys, recursive $ref to depth 4; nested positions capped at {nested_cap} candidates, top level at {top_cap}) filtered by the reference validator, serialised by serde_json (keys in schema order); each is fed byte by byte, with one whitespace byte at every legal position, and under every segmentation into a schema-derived multi-byte vocabulary (all segmentations for texts <= 14 bytes, else greedy + two shifted); states = schemas, traces = fed token sequences", ss.len()),
+        rule: format!("whitespace options pass: 3 schemas x 4 documented x-guidance settings (whitespace_flexible, two whitespace_pattern bounds, item_separator/key_separator patterns), every permitted whitespace string at every single legal position and at all positions at once; then {} schemas of the fully supported subset; for each, instances from a schema-guided finite universe (integers around every bound, x.5/x.25 decimals, 19 strings incl. escapes, 2- and 4-byte characters and control characters, arrays to length 3, objects over every subset of optional declared properties plus up to two additional keys, recursive $ref to depth 4; nested positions capped at {nested_cap} candidates, top level at {top_cap}) filtered by the reference validator, serialised by serde_json (keys in schema order); each is fed byte by byte, with one whitespace byte at every legal position, and under every segmentation into a schema-derived multi-byte vocabulary (all segmentations for texts <= 14 bytes, else greedy + two shifted); states = schemas, traces = fed token sequences", ss.len()),
     }
 }
 
